@@ -52,6 +52,10 @@ def yw_case(draw, dtype="any", with_list=False):
     pmax = min(x["n"] - 1, 30)
     lo, hi = draw(st.sampled_from(_ORDER_BUCKETS))
     p = draw(st.integers(min(lo, pmax), min(hi, pmax)))
+    if draw(st.integers(0, 5)) == 5:
+        # the order at a particular relation to the record length: N/2 exactly, its neighbours, N-1, (N-1)/2
+        N = x["n"]
+        p = max(1, min(pmax, draw(st.sampled_from([N // 2, N // 2 + 1, N // 2 - 1, N - 1, (N - 1) // 2, N - 2]))))
     c = {"x": x, "p": p, "explicit_norm": draw(st.booleans())}
     if with_list:
         c["as_list"] = draw(st.booleans())
